@@ -111,7 +111,7 @@ def enum_val(e):
     return e.val if isinstance(e, EnumSym) else e.value
 
 
-LIFETIMES = [None, 0.05, 0.4, 0.75, 1.0, 3.2, 63.0, 110.0, 600.0]
+LIFETIMES = [None, 0.0, 0.05, 0.4, 0.75, 1.0, 3.2, 63.0, 110.0, 600.0]
 
 
 def lifetime_ms(h, lifetime):
